@@ -236,7 +236,7 @@ impl Prop for HelloMatrix {
     }
     fn rule(&self) -> String {
         "server hellos: base versions {1.0, 1.1, both, neither} x any subset of the standard \
-         capabilities and URL schemes x unknown capability URIs x duplicated capability x \
+         capabilities and URL schemes x unknown capability URIs (incl. look-alikes of the base URIs: with a query, a fragment, a suffix, another URN prefix) x duplicated capability x \
          session-id {valid incl. 2^32-1, leading zeros, 0, 2^32, negative, empty, non-numeric, \
          missing, duplicated} x capabilities element {once, missing, twice} x child order x \
          prefixed/default namespace x malformed documents x both orders of the hello exchange \
@@ -253,10 +253,26 @@ impl Prop for HelloMatrix {
             (any::<bool>(), any::<bool>(), any::<u16>(), any::<bool>(), any::<u8>()),
             prop::collection::vec(
                 prop_oneof![
-                    Just("urn:ietf:params:netconf:capability:notification:1.0".to_string()),
-                    Just("http://xml.juniper.net/dmi/system/1.0".to_string()),
-                    Just("urn:ietf:params:xml:ns:yang:ietf-netconf-monitoring?module=ietf-netconf-monitoring&revision=2010-10-04".to_string()),
-                    "urn:x-[a-z]{1,8}:[a-z0-9]{1,8}".prop_map(|s| s),
+                    1 => Just("urn:ietf:params:netconf:capability:notification:1.0".to_string()),
+                    1 => Just("http://xml.juniper.net/dmi/system/1.0".to_string()),
+                    1 => Just("urn:ietf:params:xml:ns:yang:ietf-netconf-monitoring?module=ietf-netconf-monitoring&revision=2010-10-04".to_string()),
+                    1 => "urn:x-[a-z]{1,8}:[a-z0-9]{1,8}".prop_map(|s| s),
+                    // URIs that only look like a base capability: they are different URIs (RFC
+                    // 6241 8.1: the capability is identified by the URI) and say nothing about
+                    // the base versions the server speaks
+                    3 => (any::<bool>(), 0u8..8).prop_map(|(v11, k)| {
+                        let base = if v11 { "urn:ietf:params:netconf:base:1.1" } else { "urn:ietf:params:netconf:base:1.0" };
+                        match k {
+                            0 => format!("{base}?module=ietf-netconf"),
+                            1 => format!("{base}#frag"),
+                            2 => format!("{base}/"),
+                            3 => format!("{base}.0"),
+                            4 => format!("{base}0"),
+                            5 => base.replace("urn:ietf:params:netconf", "urn:ietf:params:xml:ns:netconf"),
+                            6 => base.replace(":base:", ":capability:base:"),
+                            _ => format!("x{base}"),
+                        }
+                    }),
                 ],
                 0..3,
             ),
